@@ -539,6 +539,14 @@ def update_scenarios_exhaustive(tier):
     # corrupt file at update time
     out.append({'groups': base(), 'added': ['n1'], 'args': [], 'corrupt': True, 'label': 'corrupt'})
     out.append({'groups': base(), 'added': ['n1'], 'args': ['a'], 'corrupt': True, 'label': 'corrupt-named'})
+    # a listener pool whose events= line is only reordered is left alone
+    for recipe in ('running', 'stopped'):
+        for evs in (['PROCESS_COMMUNICATION', 'SUPERVISOR_STATE_CHANGE', 'EVENT'], ['TICK_5', 'PROCESS_LOG', 'PROCESS_STATE', 'TICK_60']):
+            g = _g('t', 'listener', 'keep', [_m('t', recipe)])
+            g['events'] = evs
+            g['reorder'] = True
+            out.append({'groups': by() + [g], 'added': ['n1'], 'args': [], 'corrupt': False,
+                        'label': 'events-reordered:%s' % recipe})
     # reread of an intermediate version, a further edit, then update
     for args in ([], ['n1'], ['all']):
         out.append({'groups': by(), 'added': ['n1', 'n2'], 'args': args, 'corrupt': False, 'two_step': True,
@@ -569,6 +577,9 @@ def random_update_scenario(rng):
             m['name'] = n
             ms = [m]
         groups.append(_g(n, kind, fate, ms))
+        if kind == 'listener' and rng.random() < 0.5:
+            groups[-1]['events'] = rng.sample(['TICK_5', 'PROCESS_LOG', 'PROCESS_STATE', 'TICK_60', 'EVENT', 'PROCESS_COMMUNICATION'], 3)
+            groups[-1]['reorder'] = True
     added = ['n%d' % i for i in range(rng.choice([0, 0, 1, 2]))]
     k = rng.random()
     if k < 0.6:
